@@ -41,6 +41,7 @@ type kwalk struct {
 	num    map[string]string
 	out    []string
 	hasErr bool
+	named  bool // the enclosing function / closure has named results
 }
 
 func (k *kwalk) emit(f string, a ...any) { k.out = append(k.out, fmt.Sprintf(f, a...)) }
@@ -154,6 +155,11 @@ func (k *kwalk) ignoredCall(ce *ast.CallExpr) bool {
 		if kIgnoreSel[f.Sel.Name] {
 			return true
 		}
+		if rc, ok := f.X.(*ast.CallExpr); ok { // ctx.Logger().Error(…), k.Logger(ctx).Warn(…)
+			if rs, ok := rc.Fun.(*ast.SelectorExpr); ok && rs.Sel.Name == "Logger" {
+				return true
+			}
+		}
 		if pkg, ok := k.isPkg(f.X); ok && kIgnorePkg[pkg] {
 			return true
 		}
@@ -192,7 +198,7 @@ func (k *kwalk) expr(e ast.Expr) {
 	case *ast.UnaryExpr:
 		k.expr(e.X)
 		if e.Op == token.NOT {
-			k.emit("!")
+			k.emit("!(%s)", k.operand(e.X))
 		}
 	case *ast.BinaryExpr:
 		if identName(e.X) == "nil" || identName(e.Y) == "nil" {
@@ -210,7 +216,11 @@ func (k *kwalk) expr(e ast.Expr) {
 	case *ast.FuncLit:
 		k.emit("func")
 		k.fields(e.Type.Params)
+		k.fields(e.Type.Results)
+		oldErr, oldNamed := k.hasErr, k.named
+		k.hasErr, k.named = lastIsError(e.Type.Results), hasNames(e.Type.Results)
 		k.block(e.Body.List)
+		k.hasErr, k.named = oldErr, oldNamed
 		k.emit("end")
 	case *ast.CallExpr:
 		if k.ignoredCall(e) {
@@ -346,7 +356,7 @@ func (k *kwalk) stmt(s ast.Stmt) {
 		k.emit("%s(%s)", s.Tok.String(), k.operand(s.X))
 	case *ast.ReturnStmt:
 		var ops []string
-		interesting := false
+		interesting := len(s.Results) == 0 && k.named // a bare return hands back the named results as they are
 		for i, r := range s.Results {
 			if ce, isCall := r.(*ast.CallExpr); k.hasErr && i == len(s.Results)-1 && identName(r) == "" && (!isCall || k.ignoredCall(ce)) {
 				ops = append(ops, "error") // a constructed error: its text is not tied
@@ -500,14 +510,17 @@ func (p *pkgInfo) opListK(fn string) []string {
 	k.fields(fd.Recv)
 	k.fields(fd.Type.Params)
 	k.fields(fd.Type.Results)
-	if fd.Type.Results != nil {
-		rs := fd.Type.Results.List
-		if len(rs) > 0 && show(rs[len(rs)-1].Type) == "error" {
-			k.hasErr = true
-		}
-	}
+	k.hasErr, k.named = lastIsError(fd.Type.Results), hasNames(fd.Type.Results)
 	k.block(fd.Body.List)
 	return k.out
+}
+
+func lastIsError(fl *ast.FieldList) bool {
+	return fl != nil && len(fl.List) > 0 && show(fl.List[len(fl.List)-1].Type) == "error"
+}
+
+func hasNames(fl *ast.FieldList) bool {
+	return fl != nil && len(fl.List) > 0 && len(fl.List[0].Names) > 0
 }
 
 // pinK: emit `opsx_<fn>` for every named function of the package
